@@ -36,8 +36,8 @@ CLAIMS = {
     "C03": {
         "text": ("The solver shows (a) the per-node decision of every strictness level equals the decision table of the documentation for every goal/candidate label pair, "
                  "(b) are_kinds_matching over all u16 pairs, (c) which leftover goals may stay unmatched, (d) through the real Pattern entry points for one-node patterns: a non-capturing hole "
-                 "marked named ($_) matches only named nodes and an any-node hole ($$_) any node, binding nothing; Pattern::get_match_len accepts exactly what match_node_with_env accepts "
-                 "for one-token patterns and reports the token's own length."),
+                 "marked named ($_) matches only named nodes and an any-node hole ($$_) any node, binding nothing; for one-token patterns every node that matches has a matched length (Pattern::get_match_len) "
+                 "and every reported length is the token's own length."),
         "note": ("NOT covered (engine limits, DESIGN 3): the sibling alignment itself (match_nodes_impl_recursive, match_single_node_while_skip_trivial, ellipsis handling): the harnesses "
                  "(c03_env_*, c03_len_*, c03_tt_*, c03_sep_*, c03_lay_*; oracle validated natively on 184 320 cases) run out of 24 GB / 30 min even for two terminal goals against "
                  "two candidates at one concrete strictness, and are kept in the lab tier. Two of the four seeded changes for C03 are in that loop and are missed. Capturing holes ($A) are lab tier (spurious engine failures on the MetaVarEnv write). Labels: 5 kinds + ERROR, 1-2-byte texts."),
@@ -113,12 +113,13 @@ CLAIMS = {
     "C20": {
         "text": ("For every string within the stated length/alphabet bounds the solver shows extract_meta_var agrees with the specification table of the property -- with the sigil `$` and with the "
                  "2-byte and 4-byte expando characters the languages substitute for it --, parse_an_b with a reference reading of An+B, is_matched with `exists n >= 0: i = A*n+B`, and resolve_char "
-                 "with Python's slice index normalisation over the full i32 range. For every built-in language at once (symbolic language) the solver shows that the real per-language pipeline "
-                 "extract_meta_var(pre_process_pattern(s)) gives each of 24 spellings ($A $$A $_ $$_ $$$ $$$A $$$_ $_X ... $a $1 $ $$ $$$$A) the same, language-independent meaning, and that no "
+                 "with Python's slice index normalisation over the full i32 range. The real per-language pipeline extract_meta_var(pre_process_pattern(s)) is run by the model checker on a finite grid -- quick: 24 spellings "
+                 "($A $$A $_ $$_ $$$ $$$A $$$_ $_X ... $a $1 $ $$ $$$$A) x one representative language per expando class (Rust, C, Html, Java, Css); thorough: the six spellings the property names x all 23 "
+                 "languages (symbolic language index, case-split) -- and gives every spelling the same, language-independent meaning; and for every built-in language (symbolic index) no "
                  "language's expando character can occur in a meta-variable name."),
         "note": ("Strings <= 5 (7, 9 thorough) bytes over alphabets covering every character class the code distinguishes. The language crate is compiled without its generated C grammars; "
                  "whether a spelling lexes as one token in each of the 23 grammars is outside the claim. Symbolic spellings through pre_process_pattern (Vec<char> of symbolic element count) and "
-                 "Substring::compute (needs a String of symbolic length) run out of memory and are kept in the lab tier; the spellings of the per-language table are concrete."),
+                 "Substring::compute (needs a String of symbolic length) run out of memory and are kept in the lab tier; inside each case of the per-language grid nothing is symbolic (one pipeline run costs ~16 s of symbolic execution)."),
     },
 }
 
